@@ -1,7 +1,232 @@
+//! C06 — SetSketch cardinality estimate is accurate and monotone; parallel estimator agrees
 use crate::common::*;
+use crate::gen::*;
+use crate::sk::setsketch_a_q;
+use crate::stat::*;
+use fnv::FnvHasher;
+use probminhash::setsketcher::{MleJaccard, SetSketchParams, SetSketcher};
+use rand::Rng as _;
+use rayon::prelude::*;
+use serde_json::json;
+use std::collections::BTreeSet;
+
+fn rsd(b: f64, m: u64) -> f64 {
+    (((b + 1.) / (b - 1.) * b.ln() - 1.) / m as f64).sqrt()
+}
+
+/// one trial: relative error of the estimate for n fresh items (with optional repeats)
+fn rel_error<const U16: bool>(params: SetSketchParams, n: usize, repeats: bool, rng: &mut Rng) -> (f64, f64) {
+    let ids = fresh_ids(rng, n, 0);
+    let est;
+    let adv;
+    if U16 {
+        let mut s = SetSketcher::<u16, u64, FnvHasher>::new(params, Default::default());
+        s.sketch_slice(&ids).unwrap();
+        if repeats {
+            for _ in 0..(n / 2 + 1) {
+                s.sketch(&ids[rng.random_range(0..n)]).unwrap();
+            }
+        }
+        let (c, r) = s.get_cardinal_stats();
+        est = c;
+        adv = r;
+    } else {
+        let mut s = SetSketcher::<u32, u64, FnvHasher>::new(params, Default::default());
+        s.sketch_slice(&ids).unwrap();
+        if repeats {
+            for _ in 0..(n / 2 + 1) {
+                s.sketch(&ids[rng.random_range(0..n)]).unwrap();
+            }
+        }
+        let (c, r) = s.get_cardinal_stats();
+        est = c;
+        adv = r;
+    }
+    (est / n as f64 - 1., adv)
+}
 
 pub fn run(rep: &mut Report) {
-    let _ = rep;
-    eprintln!("C06 not implemented yet");
+    quiet_panics();
+    rep.rule = "S: cell = (b, m, register type, n, repeats) with a and q chosen as documented (a >= ln(m/eps)/b, q >= log_b(m n a/eps), eps=1e-6); per trial n fresh random items are sketched by the real code and the relative error e = est/n - 1 recorded; staged tests: -2 rsd^2 <= E[e] <= 2 rsd^2, and for m >= 64 (0.85 rsd)^2 <= E[e^2] <= (1.15 rsd)^2; the advertised rsd returned by get_cardinal_stats is compared with the formula. E: after every sketch/merge of long random histories the estimate must not decrease; serial vs parallel estimator within 4 m 2^-52 relative. M: the parallel estimator under rayon pools of 1,2,3,5,16 threads, repeated; distinct floating point results recorded. Distinct = cells and histories; non-trivial when n >= 2".into();
+    // ---------------- S part
+    let t1: u64 = rep.tier.pick(3000, 30_000);
+    let bs = [1.001, 1.2, 1.5, 2.0];
+    let ms = [64u64, 256, 4096];
+    let ns: Vec<usize> = rep.tier.pick(vec![1, 10, 1000, 100_000], vec![1, 10, 1000, 100_000, 1_000_000, 4_000_000]);
+    let mut ci = 0u64;
+    let mut crng = rng_from(subseed(rep.seed, "C06/cells", &[]));
+    for &b in &bs {
+        for &m in &ms {
+            for &n in &ns {
+                ci += 1;
+                let u16reg = ci % 2 == 0;
+                let repeats = ci % 3 == 0;
+                // quick: a seeded selection of the product, cost-bounded
+                // cost model of one trial in register visits: the first ~5m items visit all m registers, later ones are pruned
+                let cost = (n.min(5 * m as usize) as f64) * m as f64 + 30. * n as f64;
+                let budget: f64 = rep.tier.pick(2.5e9, 1e11);
+                let tt = ((budget / cost) as u64).clamp(200, t1);
+                if rep.tier == Tier::Quick && n >= 100_000 && crng.random_range(0..3) != 0 {
+                    continue;
+                }
+                let cell = format!("S/b={}/m={}/{}/n={}{}", b, m, if u16reg { "u16" } else { "u32" }, n, if repeats { "/repeats" } else { "" });
+                if !rep.want(&cell) {
+                    continue;
+                }
+                let (a, q) = setsketch_a_q(b, m, n as f64, 1e-6);
+                if u16reg && q + 1 > 65535 {
+                    continue;
+                }
+                let params = SetSketchParams::new(b, m, a, q);
+                let r = rsd(b, m);
+                let mut targets = vec![
+                    Target::new("rel_error_upper", 2. * r * r, Kind::Upper),
+                    Target::new("rel_error_lower", -2. * r * r, Kind::Lower),
+                    Target::new("advertised_rsd_matches_formula", r, Kind::Info),
+                ];
+                if m >= 64 {
+                    targets.push(Target::new("sq_rel_error_upper", (1.15 * r) * (1.15 * r), Kind::Upper));
+                    targets.push(Target::new("sq_rel_error_lower", (0.85 * r) * (0.85 * r), Kind::Lower));
+                }
+                let nt = targets.len();
+                let seed = subseed(rep.seed, "C06/S", &[ci]);
+                let (rs, trials) = staged(seed, tt, 3, &targets, |rng, out| {
+                    let (e, adv) = if u16reg { rel_error::<true>(params, n, repeats, rng) } else { rel_error::<false>(params, n, repeats, rng) };
+                    out[0] = e;
+                    out[1] = e;
+                    out[2] = adv;
+                    if nt > 3 {
+                        out[3] = e * e;
+                        out[4] = e * e;
+                    }
+                });
+                // advertised rsd must be the formula (deterministic)
+                let adv = rs[2].stages[0].1;
+                if (adv - r).abs() > 1e-12 * r.max(1.) {
+                    rep.violation("C06/advertised-rsd", &cell, format!("get_cardinal_stats reports rsd {} but ((b+1)/(b-1) ln b - 1)/m gives {}", adv, r), json!({"b": b, "m": m}));
+                }
+                let case = json!({"b": b, "m": m, "a": a, "q": q, "registers": if u16reg { "u16" } else { "u32" }, "n": n, "repeats": repeats, "advertised_rsd": r, "bias_allowance": 2. * r * r});
+                if ci % 11 == 1 {
+                    rep.sample(case.clone());
+                }
+                if n >= 2 {
+                    rep.distinct.insert(mix(&[b.to_bits(), m, n as u64, u16reg as u64]));
+                }
+                record_cell(rep, "C06", &cell, &rs, trials, case);
+            }
+        }
+    }
+    // ---------------- E part: monotonicity + serial vs parallel after every step
+    if rep.want("mono") {
+        let nh = rep.tier.pick(200u64, 6000u64);
+        let seed = subseed(rep.seed, "C06/mono", &[]);
+        let res: Vec<Result<(u64, Option<(String, String)>, serde_json::Value), String>> = (0..nh)
+            .into_par_iter()
+            .map(|i| {
+                catch(move || {
+                    let mut rng = rng_from(mix(&[seed, i]));
+                    let b = [1.001, 1.05, 1.2, 2.0][rng.random_range(0..4)];
+                    let m = [1u64, 2, 16, 64, 256][rng.random_range(0..5)];
+                    let (a, q) = if rng.random_range(0..3) == 0 { (5., 12) } else { setsketch_a_q(b, m, 1e5, 1e-6) };
+                    let q = q.min(65534);
+                    let params = SetSketchParams::new(b, m, a, q);
+                    let mle = MleJaccard::new(b, m, a);
+                    let mut s = SetSketcher::<u16, u64, FnvHasher>::new(params, Default::default());
+                    let mut prev = s.get_cardinal_stats().0;
+                    let steps = rng.random_range(50..400);
+                    let pool = fresh_ids(&mut rng, 300, 0);
+                    let case = json!({"b": b, "m": m, "a": a, "q": q, "steps": steps, "history": i});
+                    let mut nops = 0;
+                    for step in 0..steps {
+                        if rng.random_range(0..10) == 0 {
+                            let mut o = SetSketcher::<u16, u64, FnvHasher>::new(params, Default::default());
+                            for _ in 0..rng.random_range(0..200) {
+                                o.sketch(&fresh_ids(&mut rng, 1, 0)[0]).unwrap();
+                            }
+                            s.merge(&o).unwrap();
+                        } else if rng.random_range(0..4) == 0 {
+                            s.sketch(&pool[rng.random_range(0..pool.len())]).unwrap();
+                        } else {
+                            s.sketch(&fresh_ids(&mut rng, 1, 0)[0]).unwrap();
+                        }
+                        nops += 1;
+                        let cur = s.get_cardinal_stats().0;
+                        if !(cur >= prev) {
+                            return (nops, Some(("C06/estimate-decreased".to_string(), format!("step {}: estimate went from {} to {} (b={}, m={}, a={}, q={})", step, prev, cur, b, m, a, q))), case);
+                        }
+                        prev = cur;
+                        if step % 8 == 0 {
+                            let par = mle.get_cardinal_estimate(s.get_signature());
+                            let tol = 4. * m as f64 * f64::EPSILON * cur.abs();
+                            if !((par - cur).abs() <= tol) {
+                                return (nops, Some(("C06/parallel-estimator-disagrees".to_string(), format!("step {}: parallel estimate {} vs sketcher's own {} (tolerance {:e})", step, par, cur, tol))), case);
+                            }
+                        }
+                    }
+                    (nops, None, case)
+                })
+            })
+            .collect();
+        for (i, r) in res.into_iter().enumerate() {
+            match r {
+                Ok((nops, fail, case)) => {
+                    rep.evaluations += nops;
+                    rep.count("monotonicity.steps_checked", nops);
+                    rep.distinct.insert(mix(&[i as u64, 4242]));
+                    if i == 0 {
+                        rep.sample(case.clone());
+                    }
+                    if let Some((k, w)) = fail {
+                        rep.violation(&k, "mono", w, case);
+                    }
+                }
+                Err(p) => rep.violation("C06/panic", "mono", format!("panic: {}", p), json!({"history": i})),
+            }
+        }
+    }
+    // ---------------- M part: schedules of the rayon reduction
+    if rep.want("sched") {
+        let seed = subseed(rep.seed, "C06/sched", &[]);
+        let mut rng = rng_from(seed);
+        let reps = rep.tier.pick(300, 5000);
+        let mut sched_info = Vec::new();
+        for (b, m, n) in [(1.001, 4096u64, 5000usize), (2.0, 4096, 100_000), (1.2, 256, 1000), (1.001, 65536, 50_000)] {
+            let (a, q) = setsketch_a_q(b, m, n as f64, 1e-6);
+            let params = SetSketchParams::new(b, m, a, q);
+            let mut s = SetSketcher::<u32, u64, FnvHasher>::new(params, Default::default());
+            s.sketch_slice(&fresh_ids(&mut rng, n, 0)).unwrap();
+            let own = s.get_cardinal_stats().0;
+            let mle = MleJaccard::new(b, m, a);
+            let sig = s.get_signature().clone();
+            let tol = 4. * m as f64 * f64::EPSILON * own.abs();
+            let mut distinct: BTreeSet<u64> = BTreeSet::new();
+            let mut per_threads = Vec::new();
+            for nt in [1usize, 2, 3, 5, 16] {
+                let pool = rayon::ThreadPoolBuilder::new().num_threads(nt).build().unwrap();
+                let mut d: BTreeSet<u64> = BTreeSet::new();
+                for _ in 0..reps {
+                    let par = pool.install(|| mle.get_cardinal_estimate(&sig));
+                    rep.evaluations += 1;
+                    d.insert(par.to_bits());
+                    if !((par - own).abs() <= tol) {
+                        rep.violation("C06/parallel-estimator-disagrees", "sched", format!("{} threads: parallel estimate {} vs sketcher's own {} (tolerance {:e}; b={}, m={})", nt, par, own, tol, b, m), json!({"b": b, "m": m, "n": n, "threads": nt}));
+                        break;
+                    }
+                }
+                per_threads.push(json!({"threads": nt, "distinct_results": d.len()}));
+                distinct.extend(d);
+            }
+            for x in &distinct {
+                rep.distinct.insert(*x);
+            }
+            sched_info.push(json!({"b": b, "m": m, "n": n, "own_estimate": own, "distinct_parallel_results": distinct.len(), "max_rel_diff": distinct.iter().map(|x| ((f64::from_bits(*x) - own) / own).abs()).fold(0., f64::max), "per_pool": per_threads}));
+        }
+        rep.extra.insert("schedules_observed".into(), json!(sched_info));
+    }
+    collect_ticks(rep);
+    rep.assumptions.push("the advertised relative standard deviation is sqrt(((b+1)/(b-1) ln b - 1)/m) as returned by get_cardinal_stats".into());
 }
-pub fn child_par(_a: &[String]) -> i32 { 2 }
+
+pub fn child_par(_a: &[String]) -> i32 {
+    2
+}
